@@ -22,16 +22,15 @@ def obligations(tier):
                       desc='2 producers (3 enqueues) vs single consumer doing 2 x __cds_wfcq_dequeue_%s, then drain: '
                            'FIFO bad-pattern oracle + conservation + enqueue result + WOULDBLOCK/LAST clauses' % kn,
                       wit=['consumer dequeued two nodes concurrently with the producers', 'consumer saw an empty queue']
-                      + (['dequeue reported STATE_LAST'] if k in (2, 3) else [])))
+                      + (['dequeue reported STATE_LAST', 'dequeue without STATE_LAST'] if k in (2, 3) else [])))
     obs += (ob('fifo_mutex_2consumers', 4, 4, ['p1', 'p2', 'c1', 'c2'], R,
                   desc='2 producers vs 2 consumers through the mutex-protected cds_wfcq_dequeue_blocking'))
     obs += (ob('splice_blocking', 2, 0, ['p1', 'p2', 'c1'], R, desc='splice src->dst racing in-flight enqueuers; dst drained; src reused',
                   wit=['splice moved nodes into an empty destination', 'splice found the source empty',
                        'second splice appended behind existing nodes']))
     obs += (ob('splice_nonblocking', 2, 1, ['p1', 'p2', 'c1'], R, desc='same with __cds_wfcq_splice_nonblocking first'))
-    obs += (ob('iter_for_each', 3, 0, ['p1', 'p2', 'c1'], R, desc='__cds_wfcq_for_each_blocking while producers enqueue', unwind=6,
+    obs += (ob('iter_for_each_safe', 3, 1, ['p1', 'p2', 'c1'], R, desc='__cds_wfcq_for_each_blocking_safe (first/next) while producers enqueue', unwind=6,
                   wit=['iteration saw all three nodes', 'iteration saw one node']))
-    obs += (ob('iter_for_each_safe', 3, 1, ['p1', 'p2', 'c1'], R, desc='__cds_wfcq_for_each_blocking_safe while producers enqueue', unwind=6))
     obs += (ob('empty_observer', 5, 0, ['p1', 'c1', 'c2'], R, desc='cds_wfcq_empty() by a third thread vs producer and consumer',
                   wit=['empty() observed a non-empty queue']))
     for B in ((1,) if q else (1, 2)):
